@@ -1,6 +1,8 @@
 """C03 -- neutron SLD, cross sections and penetration follow the documented equations."""
 from __future__ import annotations
 
+import math
+
 import numpy as np
 
 from ..runner import Case
@@ -157,9 +159,19 @@ def _edep_table_reading(el_name, iso):
     ef = (plancks_constant ** 2 * electron_volt / (2 * neutron_mass * atomic_mass_constant)) * 1e23
     pts = []
     for en, re, im, _ in rows:
-        pts.append(((ef / (en * 1000.)) ** 0.5, complex(re, im)))
+        pts.append((math.sqrt(ef / (en * 1000.)), complex(re, im)))      # IEEE sqrt, as numpy's
     pts.sort(key=lambda p: p[0])
     return pts
+
+
+def _chord(E, lam, xa, xb, fa, fb):
+    """value on the chord between two table nodes; exact rational arithmetic in symbolic mode"""
+    if E.symbolic:
+        XA, XB = sym.const(xa), sym.const(xb)
+        FA, FB = sym.SymComplex.of(fa), sym.SymComplex.of(fb)
+        return FA + (FB - FA) * ((lam - XA) / (XB - XA))
+    t = (lam - xa) / (xb - xa)
+    return fa + (fb - fa) * t
 
 
 def _edep_case(el_name, iso, partner='O'):
@@ -192,8 +204,7 @@ def _edep_case(el_name, iso, partner='O'):
                     elif lam == xb:
                         want = fb
                     else:
-                        t = (lam - xa) / (xb - xa)
-                        want = fa + (fb - fa) * t
+                        want = _chord(E, lam, xa, xb, fa, fb)
                     break
         E.eq('b_c_interp', b, want)
         E.eq('sigma_s_is_4pi_b2', sig * 100, 4 * cm.PI * cm.cabs2(b))
